@@ -223,7 +223,7 @@ def _check_circular_dependencies(
     path.append(measure.name)
 
     dependencies = measure.get_dependencies(graph)
-    for dep_name in dependencies:
+    for dep_name in sorted(dependencies):
         try:
             dep_measure = graph.get_metric(dep_name)
             if dep_measure:
